@@ -157,7 +157,7 @@ func routers(proto string, retryOn bool) func(cluster string) []v2.Router {
 	}
 }
 
-var letterClass = map[byte]string{'H': "hijack", 'B': "hijack-with-body", 'D': "direct-response", 'T': "terminate", 'M': "re-match", 'R': "re-choose"}
+var letterClass = map[byte]string{'Z': "slow-hijack", 'H': "hijack", 'B': "hijack-with-body", 'D': "direct-response", 'T': "terminate", 'M': "re-match", 'R': "re-choose"}
 
 func record(c *chainCase, partName string) {
 	nonTriv := false
@@ -218,6 +218,14 @@ func record(c *chainCase, partName string) {
 	}
 	if c.Pipelined && len(c.Reqs) > 1 {
 		add("pipelined")
+	}
+	for r := range c.Reqs {
+		if c.Reqs[r].LeaveMs > 0 && simulate(c, r, "t", modeContinue).Outcome == "gone" {
+			add("client-left-while-filter-busy")
+			if c.Send >= 1 {
+				add("client-left-while-filter-busy:with-send-filters")
+			}
+		}
 	}
 	if len(c.Recv) == 0 {
 		add("no-receive-filters")
@@ -470,6 +478,20 @@ func driveH1(t ev.TB, c *chainCase, cs *mesh.Case, lg *caseLog, tokens []string,
 		if err := cl.Send(mesh.RawRequest(method, fmt.Sprintf("/c14/%d", r), "c14.test", [][2]string{{mesh.TokenHeader, tokens[r]}}, body, false)); err != nil {
 			inconclusive(t, c, "send: %v", err)
 		}
+		if rq.LeaveMs > 0 && simulate(c, r, tokens[r], modeContinue).Outcome == "gone" { // (an earlier filter may answer first: then nobody leaves)
+			// the client resets its connection while the slow filter is busy; what remains to be observed is the
+			// clean-up of the stream and the call log
+			time.Sleep(time.Duration(rq.LeaveMs) * time.Millisecond)
+			rstClose(cl.C)
+			cl.Close()
+			cl = nil
+			if !waitDestroyed(lg, tokens[r], eventDeadline) {
+				obs[r].Abandoned = true
+				return
+			}
+			time.Sleep(afterDestroy)
+			continue
+		}
 		ch := make(chan rd, 1)
 		go func(cl *mesh.H1Client) {
 			resp, err := cl.Read(method, eventDeadline+afterDestroy+time.Second)
@@ -672,6 +694,8 @@ func driveBolt(t ev.TB, c *chainCase, cs *mesh.Case, lg *caseLog, tokens []strin
 
 func verdictWord(v string) string {
 	switch v[0] {
+	case 'Z':
+		return "slow-hijack"
 	case 'H':
 		return "hijack"
 	case 'B':
@@ -719,6 +743,9 @@ func judge(c *chainCase, r int, e *expect, o *observed) (res *failure) {
 	} else if e.Outcome == "term" {
 		deny = "terminate"
 		denied = fmt.Sprintf("terminated by receive filter %d", prevIdx(e))
+	} else if e.Outcome == "gone" {
+		deny = "client-left"
+		denied = fmt.Sprintf("reset by its client while receive filter %d was busy (the filter's answer has nobody to go to)", prevIdx(e))
 	}
 
 	// 1. the negative fact first: a denied request never reaches an upstream
@@ -768,6 +795,8 @@ func judge(c *chainCase, r int, e *expect, o *observed) (res *failure) {
 			switch {
 			case y.Kind == "s" && e.Outcome == "term":
 				fail("send/filter-ran-for-terminated-stream", "send filter %d ran although the stream was terminated", y.Idx)
+			case y.Kind == "s" && e.Outcome == "gone":
+				fail("send/filter-ran-for-stream-reset-by-client", "send filter %d ran although the request had been %s: there is no response it could belong to", y.Idx, denied)
 			case y.Kind == "s":
 				fail("send/filter-ran-more-than-once:"+replyKind(e), "send filter %d invoked again (invocation #%d) for one %s reply", y.Idx, y.N, replyKind(e))
 			case y.Kind == "lb":
@@ -815,6 +844,8 @@ func judge(c *chainCase, r int, e *expect, o *observed) (res *failure) {
 
 	// 3. the client's view
 	switch e.Outcome {
+	case "gone":
+		// the client closed its connection itself: nothing to look at on its side
 	case "term":
 		if len(o.Replies) > 0 {
 			fail("terminate/client-got-a-reply", "the stream was terminated by a receive filter, the client received %d reply(ies)", len(o.Replies))
